@@ -471,9 +471,10 @@ class DataFile:
       return
     LOGGER.debug("  Time out: %s", tco)
 
-    # create a new subtitle if SN changes and we are not in cumulative mode
+    # create a new subtitle if SN changes and we are not in cumulative mode, or if there is no subtitle yet
+    # (file starting with an intermediate or last block of a cumulative set)
 
-    if tti.SN is not self.last_sn and tti.CS in (0x00, 0x01):
+    if self.cur_p_element is None or (tti.SN is not self.last_sn and tti.CS in (0x00, 0x01)):
 
       self.last_sn =  tti.SN
 
